@@ -421,7 +421,9 @@ impl<'r> G<'r> {
             self.rng.s(&["hello", "", " padded ", "\"quoted, text\"", "a,b", "7", "x:y", "\"  keep  \"", "2.50",
                 // numerals given to a string variable are stored the way the number prints: boundaries of the integer types
                 "10000000000000000000", "4611686018427387904", "-0", "123456789012345678901234567890", "9007199254740993",
-                "18446744073709551616", "-0.0", "007", "+5", "-9223372036854775809", ".5", "100000000000000000000000"]).to_string()
+                "18446744073709551616", "-0.0", "007", "+5", "-9223372036854775809", ".5", "100000000000000000000000",
+                // blanks and tabs at the end of a reply, also behind a quote that is never closed
+                "\"ADA  ", "\"open\t", "tail  ", "\" \t"]).to_string()
         };
         let good = if numeric && self.rng.chance(1, 8) {
             self.rng.s(&["10000000000000000000", "-0", "123456789012345678901234567890", "9007199254740993", "+5", ".5", "007", "-.25"]).to_string()
@@ -859,8 +861,11 @@ impl<'r> G<'r> {
     }
 
     fn inject_failure(&mut self) {
-        let kind = self.rng.below(15);
+        let kind = self.rng.below(17);
         let (name, stmts): (&'static str, Vec<Stmt>) = match kind {
+            // an array that came into being by being READ (never stored to) exists: a later DIM of it is a re-DIM
+            15 => ("dim-after-implicit-read", vec![self.print_of(Expr::Cell("H7".into(), vec![num(3)])), Stmt::Dim("H7".into(), vec![num(5)])]),
+            16 => ("dim-after-implicit-read-2d", vec![Stmt::Let { target: LValue::scalar("A$"), expr: Expr::Cell("H6$".into(), vec![num(1), num(2)]), keyword: false }, Stmt::Dim("H6$".into(), vec![num(1), num(2)])]),
             0 => ("undef-goto", vec![Stmt::Goto(99_999)]),
             1 => ("undef-gosub", vec![Stmt::Gosub(99_998)]),
             2 => ("return-without-gosub", vec![Stmt::Return]),
